@@ -514,6 +514,7 @@ type Op struct {
 	NoReturning bool        `json:"noreturning,omitempty"` // dialector without RETURNING support
 	Audit       bool        `json:"audit,omitempty"`       // Owner hooks write an audit row through their handle
 	AuditVia    string      `json:"auditvia,omitempty"`    // "session": the audit row is created through tx.Session(NewDB+SkipDefaultTransaction); "batches"/"transaction": a block of 3 rows through tx.CreateInBatches(…, 2) / tx.Transaction
+	Wide        *WideSpec   `json:"wide,omitempty"`        // create-many-join-rows: the record graph, described by its sizes
 	Plain       bool        `json:"plain,omitempty"`       // the root record is a PlainOwner: hook-less twin of Owner
 	Scope       string      `json:"scope,omitempty"`       // Scopes(func): identity | where | session (returns d.Session(&Session{})) | with-context
 	Conflict    string      `json:"conflict,omitempty"`    // create kinds: Clauses(clause.OnConflict{...}): nothing | update-all | columns
@@ -543,6 +544,32 @@ type Op struct {
 	NewName     string      `json:"newname,omitempty"`
 	NewVal      int         `json:"newval,omitempty"`
 	Owners      []OwnerSpec `json:"owners,omitempty"`
+}
+
+// WideSpec describes one Create whose many2many relation produces several
+// hundred join rows (more than fit into one statement on drivers with a small
+// bind-variable limit): Owners records, each with Tags tags; Shared = every
+// owner points at the same (explicitly keyed) tags, otherwise the tags are new.
+type WideSpec struct {
+	Owners int  `json:"owners"`
+	Tags   int  `json:"tags"`
+	Shared bool `json:"shared,omitempty"`
+}
+
+func (w WideSpec) build() []*Owner {
+	out := make([]*Owner, w.Owners)
+	for i := range out {
+		o := &Owner{Name: fmt.Sprintf("ow-w%d", i), Val: 1}
+		for j := 0; j < w.Tags; j++ {
+			if w.Shared {
+				o.Tags = append(o.Tags, &Tag{ID: uint(2000 + j), Name: fmt.Sprintf("tg%d", 2000+j)})
+			} else {
+				o.Tags = append(o.Tags, &Tag{Name: fmt.Sprintf("tg-w%d-%d", i, j)})
+			}
+		}
+		out[i] = o
+	}
+	return out
 }
 
 // PreStep derives a session from the default handle before the operation runs
@@ -656,13 +683,14 @@ const (
 	kCreateMap     = "create-map"
 	kUpdatesStruct = "updates-model-struct"
 	kDeleteNote    = "delete-soft-root"
+	kCreateWide    = "create-many-join-rows"
 	kUpdatesFull   = "updates-full-save-associations"
 	kUpdatesMap    = "updates-model-map"
 	kUpdateCol     = "update-column"
 	kDelete        = "delete"
 )
 
-var allKinds = []string{kCreate, kCreateSlice, kCreateBatches, kSave, kSaveMissing, kSaveSlice, kCreateMap, kUpdatesStruct, kDeleteNote, kUpdatesFull, kUpdatesMap, kUpdateCol, kDelete, kDelete}
+var allKinds = []string{kCreate, kCreateSlice, kCreateBatches, kSave, kSaveMissing, kSaveSlice, kCreateMap, kUpdatesStruct, kDeleteNote, kCreateWide, kUpdatesFull, kUpdatesMap, kUpdateCol, kDelete, kDelete}
 
 func ownerSlice(specs []OwnerSpec) []Owner {
 	out := make([]Owner, len(specs))
@@ -793,6 +821,19 @@ func (op Op) exec1(db *gorm.DB) *gorm.DB {
 		}
 		v := ownerSlice(op.Owners)
 		return db.Create(&v)
+	case kCreateWide:
+		v := op.Wide.build()
+		if len(v) == 1 {
+			return db.Create(v[0])
+		}
+		if op.Ptrs {
+			return db.Create(&v)
+		}
+		vals := make([]Owner, len(v))
+		for i := range v {
+			vals[i] = *v[i]
+		}
+		return db.Create(&vals)
 	case kCreateMap:
 		switch op.Form {
 		case "map":
@@ -1585,6 +1626,19 @@ func checkCase(t fataler, c Case, base *content) {
 		}
 	}
 
+	// a case with hundreds of records has hundreds of hook and Rows.Next
+	// positions that differ only in the record they belong to: first, middle
+	// and last are tried (every driver call still fails in turn)
+	pick := func(n int) []int {
+		if op.Wide == nil || n <= 3 {
+			all := make([]int, n)
+			for i := range all {
+				all[i] = i
+			}
+			return all
+		}
+		return []int{0, n / 2, n - 1}
+	}
 	for k := 0; k < N && familyOn("driver"); k++ {
 		// the value the failing call returns rotates over the positions; a
 		// COMMIT is tried with every value
@@ -1608,14 +1662,20 @@ func checkCase(t fataler, c Case, base *content) {
 	// (rows of INSERT/UPDATE/DELETE ... RETURNING) fails, which the caller of
 	// the driver sees only through rows.Err()
 	evid.AddExtra("rows_next_faults", int64(len(ref.nexts)))
-	for j := 0; j < len(ref.nexts) && familyOn("next"); j++ {
+	for _, j := range pick(len(ref.nexts)) {
+		if !familyOn("next") {
+			break
+		}
 		v := faultErrors[(j+op.Rot+3)%len(faultErrors)]
 		f := fault{kind: "next", idx: j, err: v}
 		r := runOnce(base, op, f)
 		l, _, _ := stmtLabel(recdrv.Event{Kind: recdrv.Query, Text: ref.nexts[j].query})
 		verify(f, r, v.err, multi && firstWrite >= 0 && ref.nexts[j].drvBefore-1 > firstWrite, "next:"+l, "err:"+v.name)
 	}
-	for h := 0; h < H && familyOn("hook"); h++ {
+	for _, h := range pick(H) {
+		if !familyOn("hook") {
+			break
+		}
 		f := fault{kind: "hook", idx: h}
 		r := runOnce(base, op, f)
 		verify(f, r, errHook, multi && firstWrite >= 0 && ref.hooks[h].drvBefore > firstWrite, "hook:"+ref.hooks[h].name)
@@ -1627,7 +1687,7 @@ func checkCase(t fataler, c Case, base *content) {
 	// the operation and returns nil. The operation may then complete (stored,
 	// nil error) or fail (nothing stored, error) - never "nothing stored, nil".
 	evid.AddExtra("cancel_faults", int64(H))
-	for h := 0; h < H; h++ {
+	for _, h := range pick(H) {
 		f := fault{kind: "cancel", idx: h}
 		r := runOnce(base, op, f)
 		posLabel := "cancel:" + ref.hooks[h].name
@@ -1699,6 +1759,13 @@ func opShapes(op Op, multi bool) []string {
 	}
 	if op.Plain {
 		shape["model:hook-less-root"] = true
+	}
+	if op.Wide != nil {
+		shape["size:>499-join-rows"] = true
+		shape["rel:many2many"] = true
+		if op.Wide.Shared {
+			shape["size:>499-join-rows:shared-targets"] = true
+		}
 	}
 	if op.Scope != "" {
 		shape["chain:scopes:"+op.Scope] = true
@@ -2188,6 +2255,20 @@ func drawCase(t *rapid.T) (Case, *content) {
 		if n == 2 && rapid.IntRange(0, 2).Draw(t, "array") == 0 {
 			op.Form, op.Ptrs = "array", false
 		}
+	case kCreateWide:
+		// more than 499 join rows (2 join columns) / 333 (custom join model, 3
+		// columns) for ONE many2many relation of ONE write
+		op.Audit, op.AuditVia, op.Swallow, op.AuditFail = false, "", false, ""
+		w := &WideSpec{Shared: rapid.Bool().Draw(t, "wide-shared")}
+		if w.Shared {
+			w.Tags = rapid.IntRange(18, 24).Draw(t, "wide-tags")
+			w.Owners = (505+w.Tags-1)/w.Tags + rapid.IntRange(0, 2).Draw(t, "wide-owners-extra")
+		} else {
+			w.Owners = rapid.SampledFrom([]int{1, 1, 2}).Draw(t, "wide-owners")
+			w.Tags = (505+w.Owners-1)/w.Owners + rapid.IntRange(0, 15).Draw(t, "wide-tags-extra")
+		}
+		op.Wide = w
+		op.Ptrs = rapid.Bool().Draw(t, "ptrs")
 	case kCreateMap:
 		op.Form = rapid.SampledFrom([]string{"map", "ptr-map", "maps", "ptr-maps"}).Draw(t, "form")
 		n := 1
@@ -2354,6 +2435,7 @@ const rule = "C05: rapid draws an initial database (0-3 owner graphs, loose comp
 	"type shapes (belongs-to by value, has-many of pointers, polymorphic has-one by value, many2many back-reference cycle, SetupJoinTable join model with hooks, >10 children), " +
 	"handle histories (derived sessions, a prior successful / failed write through the handle, db.Connection, CreateInBatches inside db.Transaction = SAVEPOINT) and plugin callbacks registered inside the pipelines failing like hooks. " +
 	"Audit-writing hooks write one row (tx.Exec / derived session) or a block of 3 rows through tx.CreateInBatches(rows, 2) / tx.Transaction(func); a block may fail by itself in its second part (repeated unique message) or by an injected fault, and the hook returns or swallows its error: a failed block leaves none of its rows, and with the error swallowed the operation applies completely. " +
+	"One kind (create-many-join-rows) creates 1-30 owners whose many2many relation yields 505-560 join rows in one write (new or shared tags, generated or SetupJoinTable join model); there every driver call fails in turn but only the first, middle and last hook / Rows.Next positions are tried. " +
 	"One evaluation = one faulted run. Non-trivial = the operation writes >=2 tables and the fault lands after the first write statement succeeded. " +
 	"Distinct = initial content + operation + record graph + fault position."
 
